@@ -187,3 +187,19 @@ func TestAdhoc(t *testing.T) {
 	out, err := textwire.EvaluateString(src, data)
 	fmt.Printf("ADHOC out=%q err=%v\n", out, err)
 }
+
+// TestAdhocTree: VERIF_ADHOC_TREE is a JSON object {name: source}; the page "page" is rendered
+// from a scratch directory (extension .tw). A development aid, skipped in registered runs.
+func TestAdhocTree(t *testing.T) {
+	raw := os.Getenv("VERIF_ADHOC_TREE")
+	if raw == "" {
+		t.Skip("no VERIF_ADHOC_TREE")
+	}
+	files := map[string]string{}
+	if err := json.Unmarshal([]byte(raw), &files); err != nil {
+		t.Fatal(err)
+	}
+	c := harness.New(nopTB{}, "adhoc", "adhoc", "")
+	tr := loadAndRender(c, treeCase{Files: files, Dir: "t", Ext: ".tw", Page: "page"})
+	fmt.Printf("ADHOC load_err=%q out=%q err=%q panic=%v\n", tr.LoadErr, tr.Out, tr.Err, tr.Panic)
+}
